@@ -46,8 +46,15 @@ struct Ctx
 {
     // heap buffers for the context strings (freed / overwritten right after the call returns)
     static void call(bool heap, const std::string &file, int line, const std::string &func, const std::string &cat,
-                     QtMsgType type, const QString &text, std::function<void(const QMessageLogContext &, QtMsgType, const QString &)> fn)
+                     QtMsgType type, const QString &text, std::function<void(const QMessageLogContext &, QtMsgType, const QString &)> fn,
+                     bool nullCtx = false)
     {
+        if (nullCtx) {
+            // release builds pass null pointers for file / function (and a category may be null as well)
+            QMessageLogContext ctx(nullptr, line, nullptr, nullptr);
+            fn(ctx, type, text);
+            return;
+        }
         if (!heap) {
             // the strings outlive the call (literals in real code)
             static std::mutex keepMx;
@@ -202,13 +209,14 @@ void runScenario(const QJsonObject &scn)
                 const std::string cat = (i % 4 == 0) ? "default" : ("cat." + me);
                 const QtMsgType type = QtMsgType((p + i) % 3 == 0 ? QtWarningMsg : (i % 2 ? QtDebugMsg : QtInfoMsg));
                 const int line = 100 * p + i;
+                const bool nullCtx = !useLogger && (i % 5 == 3);     // (QMessageLogger insists on a category)
                 QJsonObject f;
                 f["type"] = typeName(type);
                 f["text"] = text;
-                f["file"] = QString::fromStdString(file);
+                f["file"] = nullCtx ? QString() : QString::fromStdString(file);
                 f["line"] = line;
-                f["func"] = QString::fromStdString(func);
-                f["cat"] = QString::fromStdString(cat);
+                f["func"] = nullCtx ? QString() : QString::fromStdString(func);
+                f["cat"] = nullCtx ? QString() : QString::fromStdString(cat);
                 f["tid"] = tid;
                 QJsonObject b;
                 b["e"] = "CallBegin";
@@ -230,7 +238,7 @@ void runScenario(const QJsonObject &scn)
                                   LogMessage lm(ty, ctx, tx);
                                   bare->process(lm);
                               }
-                          });
+                          }, nullCtx);
                 QJsonObject e;
                 e["e"] = "CallEnd";
                 e["t"] = QString::fromStdString(me);
